@@ -273,6 +273,13 @@ class URLInfo(object):
 
             new_hostname = normalize_hostname(new_hostname)
 
+            try:
+                # Lower-casing and IDNA mapping may have produced another
+                # IPv4 spelling (0X7f000001, full-width digits before an x)
+                new_hostname = normalize_ipv4_address(new_hostname)
+            except ValueError:
+                pass
+
             if any(char in new_hostname for char in FORBIDDEN_HOSTNAME_CHARS):
                 raise ValueError('Invalid hostname: {}'
                                  .format(ascii(hostname)))
